@@ -9,4 +9,4 @@ Extraction "c05model.ml" extract_anchor tk_code parse_bytes classify_tok
   env_names global_names global_used_names complete_ok decl_later_or_outside split_global global_mixed_levels same_pos_other_file
   c12_refs_same_decl c12_self_in_refs c12_highlight c12_hover is_local_decl_of laid_b laid2_b no_repoint
   analyse_wide text_ok_wide cut_name_wide complete_prefix_wide complete_at_wide resolve_at_wide define_at_wide references_at_wide hover_at_wide
-  bind_file_wide in_wide has_w_block strs_block near_str lends_block after_local.
+  bind_file_wide in_wide has_w_block strs_block near_str lends_block after_local rp_block b4_boundary rends_block at_repeat_end.
